@@ -1,7 +1,10 @@
 /* C13 units queue_resize / queue_prepare (bounded): growing and shrinking the storage keeps the deque view;
  * shrinking below the content drops bytes from the FRONT (documented truncation); the struct stays well formed.
  * realloc/free are harness stand-ins over two fixed blocks (new storage = the other block, old bytes copied,
- * the tail arbitrary), because CBMC's realloc model with symbolic sizes exhausts the solver here (measured). */
+ * the tail arbitrary), because CBMC's realloc model with symbolic sizes exhausts the solver here (measured).
+ * Modular: mpt_queue_align and mpt_queue_crop are replaced by their contracts (executable stand-ins below; the
+ * contracts themselves are discharged against the real bodies in units queue_align and queue_crop), so that a
+ * change inside them is reported there and this unit decides only what resize/prepare add. */
 #include "queue_spec.h"
 Q_GHOST_DEFS
 static uint8_t h_A[CAP + 1], h_B[CAP + 1];
@@ -17,10 +20,32 @@ void *realloc(void *p, size_t n)
 }
 void free(void *p) { if (p == (void *) h_A) h_freed++; else if (p) h_bad = 1; }
 
+static int h_aligns, h_crops, h_bad_call;
+/* contract of mpt_queue_align(q, 0): offset 0 afterwards, length and deque view unchanged, the rest of the storage arbitrary */
+void mpt_queue_align(queue_t *q, size_t pos)
+{
+	uint8_t tmp[CAP], nd_rest[CAP]; size_t i;
+	h_aligns++;
+	if (pos != 0 || !Q_WF(q)) { h_bad_call = 1; return; }
+	if (!q->base) { if (!q->len) q->off = 0; return; }
+	for (i = 0; i < CAP; i++) tmp[i] = i < q->len ? QV(q, i) : nd_rest[i];
+	for (i = 0; i < CAP; i++) if (i < q->max) ((uint8_t *) q->base)[i] = tmp[i];
+	q->off = 0;
+}
+/* contract of mpt_queue_crop(q, 0, n), n <= len: the first n bytes leave the view, the others keep their order */
+int mpt_queue_crop(queue_t *q, size_t pos, size_t len)
+{
+	h_crops++;
+	if (pos != 0 || !Q_WF(q) || len > q->len || !q->max) { h_bad_call = 1; return -1; }
+	q->off = Q_IDX(q->off, q->max, len);
+	q->len -= len;
+	return 0;
+}
+
 void harness(void)
 {
 	IN(size_t, in_max); IN(size_t, in_len); IN(size_t, in_off); IN(size_t, in_k1); IN(size_t, in_new);
-	queue_t q; uint8_t in_content[CAP]; size_t i;
+	queue_t q; uint8_t in_content[CAP]; size_t i; V_FILL(in_content);
 	V_REQ(in_max >= 1 && in_max <= CAP && in_len <= in_max && in_off < in_max && in_new <= CAP);
 	for (i = 0; i < CAP; i++) h_A[i] = in_content[i];
 	h_asize = in_max; q.base = h_A; q.max = in_max; q.len = in_len; q.off = in_off;
@@ -46,5 +71,6 @@ void harness(void)
 	}
 #endif
 	V_CHECK("storage: only the queue's own storage is handed to realloc/free", !h_bad);
+	V_CHECK("callees are used inside their contracts (align to 0, crop from the front within the content)", !h_bad_call);
 	V_CANARY();
 }
